@@ -311,6 +311,8 @@ def build_request(ex, meta):
     for k in ("index_recv", "drop_calls", "opaque_macros", "mut_params"):
         if k in o:
             r[k] = o[k].split(",")
+    if "field_types" in o:
+        r["field_types"] = dict(x.split(":", 1) for x in o["field_types"].split(","))
     if o.get("copied_to_map") == "1":
         r["copied_to_map"] = True
     if "slice_from" in o or "slice_to" in o:
@@ -455,6 +457,9 @@ def assemble(unit, workdir, vacuity_twins=False):
         hdr = item.get("impl_header")
         fq = ex["path"] + ("__pc" if ex.get("twin_of") else "")
         emit(f"// ---- extracted fn {fq} from {src} (panics={build_request(ex, meta)['panics']})")
+        if item.get("hoisted") and not ex.get("twin_of"):
+            der = ex["opts"].get("hoisted_derive", "Clone,Copy")
+            emit("\n".join(("#[derive(%s)]\n" % der if (l.startswith("pub enum") or l.startswith("pub struct")) else "") + l for l in item["hoisted"].split("\n")))
         if hdr:
             emit(hdr + " {")
         for a in ex["opts"].get("attrs", "").split(";"):
